@@ -46,7 +46,11 @@ def gen_case(seed, tier):
         ok = [0, 1, 2, 4, 8, 16] if cls == "AsyncFIFO" else [0, 2, 3, 5, 9, 17]
         depth = cfg.choice(ok)
         exact = True
-    config = {"cls": cls, "width": cfg.choice([0, 1, 2, 3, 4, 8]), "depth": depth, "exact_depth": exact,
+    if tier == "thorough" and cfg.random() < 0.2:
+        depth = cfg.choice([31, 32, 33, 64])
+        exact = False
+    config = {"cls": cls, "width": cfg.choice([0, 1, 2, 3, 4, 8] + ([16, 32] if tier == "thorough" else [])), "depth": depth,
+              "exact_depth": exact,
               "w_edge": cfg.choice(["pos", "pos", "neg"]), "w_reset_less": cfg.random() < 0.3}
     nsteps = cfg.randint(40, 400) if tier == "quick" else cfg.randint(40, 1800)
     kinds = ["alt", "ratio_w", "ratio_r", "walk", "stall_w", "stall_r", "coincide", "mixed"]
